@@ -25,6 +25,12 @@ LEVELS = {
         "note": _TB + "Modelled: trie/trie.go, repl/completion.go callback result. Not modelled: which words the REPL inserts (object.record).",
         "technique": "Lean 4 proof by structural induction (refinement of the trie to the set of inserted words) + differential correspondence run",
     },
+    "C16": {
+        "text": "Kernel-checked theorems for every input byte string, every lexer state and both modes, about a Lean model of lexer.go/token.go: each NextToken result is either the mode's end marker (only on a NUL byte, at the end of the input, or where an unterminated string starts) or a token that starts on the first non-whitespace byte after the previous token, consumes at least one byte and ends inside the input (progress, tiling); operator, identifier, keyword, number and block-comment literals equal the spanned bytes; strings span quote..same quote, line comments // up to the next newline/NUL/end with literal = TrimSpace(span), block comments /*..*/ or /*..NUL/end; the end marker is reached within n+1 calls and is sticky; an IDENT is never spelled like a keyword; Intern returns the same pointer iff (type, literal) are equal. Partial: pointer uniqueness over mixed streams (constants + interned) is stated (InterningStatement) and proved for the Intern calls; string literal = unescape(content) is checked by the executable statement on every case, not proved. The model is compared with the real lexer on ~150k (quick) / ~5M (thorough) inputs per run including all strings of length <=3 / <=4 over a 39-byte alphabet in both modes.",
+        "design_ref": "DESIGN.md section 7, C16",
+        "note": _TB + "Modelled: lexer/lexer.go and token/token.go completely (tables hand-written, compared with token.Init at run time by the suite's T case). Three defects found by the suite were repaired by fix: commits (known_findings.json); the model follows the fixed code.",
+        "technique": "Lean 4 proofs by induction on loop fuel / case analysis of NextToken + exhaustive and random differential correspondence run with an independent executable statement",
+    },
 }
 
 NOT_APPLICABLE = {}
